@@ -116,7 +116,7 @@ Proof. intros HR H0 Hle Hm Hlt. pose proof (cutoff_mono ts tl R c HR H0 Hle Hm).
 Theorem no_bounce cfg e ts tl R c :
   0 <= R <= max_int64 -> 0 <= ts -> ts <= tl -> tl <= max_int64 ->
   c_cutoff cfg = deleted_cutoff true tl R c ->
-  is_deleted (masked_flags e) = true ->
+  (is_deleted (masked_flags e) || (Nat.eqb (length (k_val e)) 0 && (c_fmt cfg <? 2)%N)) = true ->
   (k_ts e < sweep_cutoff ts R)%N ->
   native_merge cfg [] e = Ok [].
 Proof.
